@@ -120,8 +120,8 @@ def make_oracle():
                                'WRAPPER-DANGLING': 'a setting carries a wrapper that has been deleted',
                                'OUTPUT-TOUCHED': 'a failing lookupValue wrote to its output argument',
                                'undefined': 'null pointer passed on'}.get(m, 'unexpected answer %r' % h)
-            why = check_line(w, h, c, dfmt)
-            if w[1] == 'init':
+            why = check_line(w, h, c, dfmt) if w[1] != 'init_multi' else None
+            if w[1] in ('init', 'init_multi'):
                 dfmt = 0
             if w[1] == 'set_default_format' and len(w) == 3:
                 dfmt = 1 if w[2] == '1' else 0
@@ -381,6 +381,24 @@ def run_C17(ctx):
         for k in ks + [n, n + 7]:
             impl.do('cpp badalloc %d %d' % (k, n))
             gen_cpp.count(stats, 'badalloc:' + ('fail' if k < n else 'none'))
+    # -- a subclass overriding the virtual include hook (Config::evaluateIncludePath): several files per directive, an
+    #    error, NULL without error, no file at all, an include directory, an error in a later file; then back to the base class
+    def override_fn(impl, rng, stats):
+        H = gen_cpp.hexs
+        for incdir in (None, b'sub'):
+            impl.do('cpp init_multi')
+            pre = (incdir + b'/') if incdir else b''
+            impl.do('mkdir %s' % H(b'sub'))
+            impl.do('mkfile %s %s' % (H(pre + b'o1.cfg'), H(b'a = 1;\nb = 2;\n'))); impl.do('mkfile %s %s' % (H(pre + b'o2.cfg'), H(b'c = 3;\n')))
+            impl.do('mkfile %s %s' % (H(pre + b'o3.cfg'), H(b'd = 4;\ne = ;\n'))); impl.do('mkfile %s %s' % (H(b'otop.cfg'), H(b'z = 0;\n@include "o1.cfg|o2.cfg"\ny = 9;\n')))
+            if incdir:
+                impl.do('cpp set_include_dir %s' % H(incdir))
+            for t in (b'x = 1;\n@include "o1.cfg|o2.cfg"\nw = 2;\n', b'@include "o2.cfg"\n', b'x = 1;\n@include "!boom"\n', b'x = 1;\n@include "?quiet"\ny = 2;\n',
+                      b'x = 1;\n@include ""\ny = 2;\n', b'@include "o1.cfg|o3.cfg|o2.cfg"\n', b'@include "o1.cfg|missing.cfg"\n', b'@include "o1.cfg|o1.cfg"\n'):
+                impl.do('cpp %s %s' % (('read_string', 'read_stream')[len(t) % 2], H(t))); impl.do('dump'); impl.do('cpp write')
+                gen_cpp.count(stats, 'include-override:read')
+            impl.do('cpp read_file %s' % H(b'otop.cfg')); impl.do('dump')
+            impl.do('cpp init'); impl.do('cpp read_string %s' % H(b'@include "o1.cfg|o2.cfg"\n')); impl.do('dump')
     cpp_oracle = make_oracle()
     def oracle(ops, outs):
         for i, (op, out) in enumerate(zip(ops, outs)):
@@ -391,7 +409,7 @@ def run_C17(ctx):
                 if out != want:
                     return i, 'failing allocation %d of %d inside C++ calls -> %s (required: %s)' % (k, n, out, want)
         return cpp_oracle(ops, outs)
-    correspondence(ctx, fns + [alloc_fn], proj, oracle, 'C17 C++ API agreement', 'cpp', driver='drv_cpp.cc', extra=WRAP)
+    correspondence(ctx, fns + [alloc_fn, override_fn], proj, oracle, 'C17 C++ API agreement', 'cpp', driver='drv_cpp.cc', extra=WRAP)
     exe = os.path.join(ctx['work'], 'h', 'drv_cpp')
     if not os.path.exists(exe):
         return
